@@ -139,8 +139,8 @@ def match_finding(prop, r, findings):
             if r.get("covered_by") == f["id"]:
                 return f
             continue
-        if "instances" in f:
-            if r.get("instance_key") in f["instances"]:
+        if "instances" in f or "instances_file" in f:
+            if r["name"] in _instances(f):
                 return f
             continue
         if "blame" in f:
@@ -149,6 +149,21 @@ def match_finding(prop, r, findings):
             continue
         return f
     return None
+
+
+_INST = {}
+
+
+def _instances(f):
+    """instance-keyed finding: the exact obligation names (instance text hashed into the name) that fail"""
+    if f["id"] not in _INST:
+        xs = set(f.get("instances", []))
+        if "instances_file" in f:
+            p = os.path.join(VERIF, f["instances_file"])
+            if os.path.exists(p):
+                xs |= {l.strip() for l in open(p) if l.strip() and not l.startswith("#")}
+        _INST[f["id"]] = xs
+    return _INST[f["id"]]
 
 
 def glob_match(name, pat):
@@ -203,6 +218,8 @@ class Report:
         findings = load_findings()
         viol, known, undec, eng = [], {}, [], []
         replay_dir = os.path.join(VERIF, "replays", self.prop)
+        if os.path.isdir(replay_dir) and not self.partial:
+            shutil.rmtree(replay_dir, ignore_errors=True)     # replays belong to one run
         for r in self.results:
             if r["strength"] == "diagnostic":
                 continue
@@ -275,6 +292,7 @@ class Report:
             undecided=[r["name"] for r in undec][:40],
             engine_errors=[r["name"] for r in eng][:40],
             not_attempted=self.not_attempted,
+            violation_names=[r["name"] for r in viol] if os.environ.get("VERIF_LIST_ALL_VIOLATIONS") else [r["name"] for r in viol][:50],
             known_findings={k: dict(text=v[0]["text"], obligations=v[1][:30], n=len(v[1])) for k, v in known.items()},
             evaluations=len(self.results),
             distinct_nontrivial=len({r["name"] for r in self.results if r.get("nontrivial", True)}),
